@@ -17,8 +17,8 @@ from .C04 import json_val
 ID = "C11"
 LEVEL = "exploration"
 RULE = (
-    "Exhaustive: (a) all single-chain shapes with <=4 decaying particles, multiplicities <=2, incl. the same decaying particle "
-    "below a second parent (thorough: n=5): DecayChain.from_dict(to_dict()) has the same mother, the same decaying particles "
+    "Exhaustive: (a) all single-chain shapes with <=5 decaying particles, multiplicities <=2, incl. the same decaying particle "
+    "below a second parent : DecayChain.from_dict(to_dict()) has the same mother, the same decaying particles "
     "and field-equal modes; (b) DecayMode.from_pdgids for every PDG ID of the EvtGen table. Hypothesis: chains with <=10 "
     "decaying particles, multiplicities <=4, real and arbitrary names, JSON-like metadata under identifier keys; DecayMode "
     "to_dict/from_dict; DaughtersDict from string / list in any order / mapping incl. zero counts / PDG IDs agree, len = total "
@@ -223,8 +223,8 @@ def check_pdgid(pid):
 def units(tier, seed):
     quick = tier == "quick"
     u = [{"name": "enum-pdgids", "kind": "pdgids"}]
-    u += [{"name": f"enum-shapes-n{n}", "kind": "shapes", "n": n} for n in ((1, 2, 3, 4) if quick else (1, 2, 3, 4, 5))]
-    u += [{"name": f"hyp-chain{k:02d}", "kind": "chain", "n": 300 if quick else 5000} for k in range(5)]
+    u += [{"name": f"enum-shapes-n{n}", "kind": "shapes", "n": n} for n in (1, 2, 3, 4, 5)]
+    u += [{"name": f"hyp-chain{k:02d}", "kind": "chain", "n": 600 if quick else 6000} for k in range(5)]
     u += [{"name": f"hyp-fs{k:02d}", "kind": "fs", "n": 300 if quick else 5000} for k in range(3)]
     u += [{"name": f"hyp-parser{k:02d}", "kind": "parser", "n": 100 if quick else 1500} for k in range(4)]
     return u
